@@ -6,7 +6,8 @@ Doubles are 16-hex-digit bit patterns, sizes / indices / slots are decimal.
   consts                                   -> min_step dtrl small_step_alpha sqrt_tol no_scaling
   xsgrid S front back prime n off w0 w1 …  -> ok <delta>      (prime: decimal or `none`;
                                               reals = all words, table = reals[off, off+n))
-  ugat S i            -> grid[i]           ugfind S v  -> index | precond      log E -> std::log(E)
+  ugat S i            -> grid[i]           ugfind S v  -> index | precond      log E -> std::log(E)    exp v -> std::exp(v)
+  bitop add|sub|mul|div|lt|le|eq a b | bitop fma a b c | bitop lerp xl yl xr yr x   (bit-level B64 model)
   xs S E | xsat S i | range S E | invrange S r          -> value | oob | precond
   gengrid S n x0…x(n-1) y0…y(n-1)          -> ok
   gen S x | geninv S y                     -> value | oob | precond
@@ -22,6 +23,7 @@ Doubles are 16-hex-digit bit patterns, sizes / indices / slots are decimal.
 -/
 import CelerVerif.Model.Calc
 import CelerVerif.Num.F64
+import CelerVerif.Model.CalcBits
 import CelerVerif.Model.Util
 
 namespace CelerVerif.Calc
@@ -98,6 +100,28 @@ def driverStep (st : St) (line : String) : St × String :=
   | ["log", e] =>
     (st, match pf e with
       | some e => hx (Num.log e)
+      | none => "bad-op")
+  | "bitop" :: op :: args =>
+    -- the kernel-evaluable bit-level arithmetic of Model/CalcBits.lean (checked against the
+    -- hardware operations of the C++ side)
+    (st, match (args.mapM fun a => if a.length > 16 then none else
+                (parseHex a).map fun n => (⟨UInt64.ofNat n⟩ : B64)) with
+      | some [a, b] =>
+        let h (x : B64) : String := toHex 16 x.bits.toNat
+        let hb (x : Bool) : String := if x then "1" else "0"
+        if op == "add" then h (Num.add a b) else if op == "sub" then h (Num.sub a b)
+        else if op == "mul" then h (Num.mul a b) else if op == "div" then h (Num.div a b)
+        else if op == "lt" then hb (Num.lt a b) else if op == "le" then hb (Num.le a b)
+        else if op == "eq" then hb (Num.eq a b)
+        else if op == "lerp2" then "bad-op" else "bad-op"
+      | some [a, b, c] =>
+        if op == "fma" then toHex 16 (Num.fma a b c).bits.toNat else "bad-op"
+      | some [xl, yl, xr, yr, x] =>
+        if op == "lerp" then toHex 16 (lerp xl yl xr yr x).bits.toNat else "bad-op"
+      | _ => "bad-op")
+  | ["exp", e] =>
+    (st, match pf e with
+      | some e => hx (Num.exp e)
       | none => "bad-op")
   | ["ugat", s, i] =>
     (st, match st.xsSlot s, i.toNat? with
